@@ -336,6 +336,30 @@ func runC17(r *Run) {
 				}
 				return true
 			})
+			// ... and a validator is skipped only when it cannot be resolved (public key, operator lookup): any
+			// other skip hands a validator's portion to the community pool although its power was counted
+			var skips []string
+			ast.Inspect(at.Decl.Body, func(n ast.Node) bool {
+				b, isB := n.(*ast.BranchStmt)
+				if !isB || b.Tok != token.CONTINUE {
+					return true
+				}
+				lp, isL := at.innermostLoop(b).(*ast.RangeStmt)
+				if !isL || !strings.Contains(exprString(lp.X), "alidators") {
+					return true
+				}
+				for _, f := range at.FactsAt(b, false) {
+					if f.At == nil || f.At.Pos() < lp.Pos() || f.LoopCond || at.isExpandedAlias(f) {
+						continue
+					}
+					if o := at.outcome(f); o != nil && (o.Callee.Name() == "ConsPubKey" || o.Callee.Name() == "ValidatorByConsAddrForChainID") {
+						continue
+					}
+					skips = append(skips, at.pos(b)+" under "+ifNot(f.Truth)+exprString(f.Atom))
+				}
+				return true
+			})
+			r.check(len(skips) == 0, "C17.R3", "AllocateTokens|skip-only-unresolvable", at.pos(at.Decl), "a validator is skipped only when its key or its operator cannot be resolved", "the validator loop of AllocateTokens skips a validator at "+strings.Join(skips, "; ")+": its portion is no longer proportional to its voting power (it goes to the community pool)")
 			r.check(brk == "", "C17.R3", "AllocateTokens|every-validator", at.pos(at.Decl), "a validator that cannot be resolved is skipped; the validators after it still get their portions", "the validator loop of AllocateTokens is left by `break` at "+brk+": the portions of all later validators go to the community pool")
 		}
 		// the whole portion of a validator is booked: commission, stakers' share and outstanding rewards are
@@ -358,27 +382,101 @@ func runC17(r *Run) {
 			r.check(len(miss) == 0, "C17.R3", "AllocateTokensToValidator|booked-unconditionally", vv.pos(vv.Decl), "a validator's portion is always booked: commission, stakers' share, outstanding rewards", "not unconditional: "+strings.Join(miss, ", ")+" -- the caller still subtracts the portion from the remainder, so it is moved but booked to nobody")
 		}
 		r.check(ok, "C17.R3", "AllocateTokensToStakers|remainder", as.pos(as.Decl), "stakers' share = sum(staker rewards) + remainder -> community pool", strings.Join(probs, "; "))
-		// the fractions paid out sum to at most one: a staker's power enters the total exactly as often as the
-		// staker is queued for a payout (same block, same conditions)
+		// the fractions paid out sum to at most one: what a list entry is paid with (its weight in the map) is
+		// exactly what it added to the total. In the accumulating block: the total grows by w unconditionally;
+		// the entry is appended and its weight set to w only when the key is new, and otherwise the weight
+		// grows by w and nothing is appended.
 		{
-			var appendAs, accAs *ast.AssignStmt
+			var accAs *ast.AssignStmt
 			ast.Inspect(as.Decl.Body, func(n ast.Node) bool {
 				a, isAs := n.(*ast.AssignStmt)
-				if !isAs || len(a.Lhs) != 1 || len(a.Rhs) != 1 {
-					return true
-				}
-				if c, isC := stripParens(a.Rhs[0]).(*ast.CallExpr); isC && exprString(c.Fun) == "append" && len(c.Args) == 2 && sameExpr(c.Args[0], a.Lhs[0]) && as.innermostLoop(a) != nil {
-					if bt, isB := as.Info.TypeOf(c.Args[1]).Underlying().(*types.Basic); isB && bt.Kind() == types.String {
-						appendAs = a
-					}
-				}
-				if as.addChainOn(a.Lhs[0], a.Rhs[0]) && as.innermostLoop(a) != nil && strings.Contains(strings.ToLower(exprString(a.Lhs[0])), "power") {
+				if isAs && len(a.Lhs) == 1 && len(a.Rhs) == 1 && as.addChainOn(a.Lhs[0], a.Rhs[0]) && as.innermostLoop(a) != nil && strings.Contains(strings.ToLower(exprString(a.Lhs[0])), "power") {
 					accAs = a
 				}
 				return true
 			})
-			okPair := appendAs != nil && accAs != nil && as.innermostBlock(appendAs) == as.innermostBlock(accAs)
-			r.check(okPair, "C17.R3", "AllocateTokensToStakers|counted-as-often-as-paid", as.pos(as.Decl), "a staker's power is added to the total exactly as often as the staker is queued for a payout", "the payout list and the total staker power are not extended in the same block under the same conditions: a staker reached several times is paid several fractions of a total that counts it once (the payouts exceed the share and `remaining.Sub` panics in BeginBlock)")
+			okPair := false
+			why := "no accumulation of the total staker power found"
+			if accAs != nil {
+				blk := as.innermostBlock(accAs)
+				// w: the term added to the total
+				var wExpr ast.Expr
+				if c, isC := stripParens(accAs.Rhs[0]).(*ast.CallExpr); isC && len(c.Args) == 1 {
+					wExpr = c.Args[0]
+				}
+				why = "the block that grows the total does not keep one map entry per staker whose weight is what the staker added"
+				if blk != nil && wExpr != nil {
+					for _, st := range blk.List {
+						ifs, isIf := st.(*ast.IfStmt)
+						if !isIf || ifs.Else == nil || ifs.Init == nil {
+							continue
+						}
+						// `prev, seen := weights[k]; seen`
+						init, isInit := ifs.Init.(*ast.AssignStmt)
+						if !isInit || len(init.Lhs) != 2 || len(init.Rhs) != 1 {
+							continue
+						}
+						ix, isIx := stripParens(init.Rhs[0]).(*ast.IndexExpr)
+						if !isIx {
+							continue
+						}
+						seenObj, prevObj := as.objOf(init.Lhs[1]), as.objOf(init.Lhs[0])
+						condIsSeen, condIsNotSeen := false, false
+						if id, isID := stripParens(ifs.Cond).(*ast.Ident); isID && as.objOf(id) == seenObj {
+							condIsSeen = true
+						}
+						if u, isU := stripParens(ifs.Cond).(*ast.UnaryExpr); isU && u.Op == token.NOT && as.objOf(u.X) == seenObj {
+							condIsNotSeen = true
+						}
+						if !condIsSeen && !condIsNotSeen {
+							continue
+						}
+						seenArm := ifs.Body
+						newArm, _ := ifs.Else.(*ast.BlockStmt)
+						if condIsNotSeen {
+							seenArm, newArm = newArm, ifs.Body
+						}
+						if seenArm == nil || newArm == nil {
+							continue
+						}
+						mapAssign := func(b *ast.BlockStmt) ast.Expr {
+							for _, s2 := range b.List {
+								if a, isAs := s2.(*ast.AssignStmt); isAs && len(a.Lhs) == 1 && len(a.Rhs) == 1 && exprString(stripParens(a.Lhs[0])) == exprString(ix) {
+									return a.Rhs[0]
+								}
+							}
+							return nil
+						}
+						appends := func(b *ast.BlockStmt) bool {
+							for _, c := range allCalls(b) {
+								if exprString(c.Fun) == "append" && len(c.Args) == 2 && sameExpr(c.Args[1], ix.Index) {
+									return true
+								}
+							}
+							return false
+						}
+						sv, nv := mapAssign(seenArm), mapAssign(newArm)
+						okSeen := false
+						if c, isC := stripParens(sv).(*ast.CallExpr); sv != nil && isC && len(c.Args) == 1 && sameExpr(c.Args[0], wExpr) {
+							if sel, isS := c.Fun.(*ast.SelectorExpr); isS && sel.Sel.Name == "Add" && as.objOf(sel.X) == prevObj {
+								okSeen = true
+							}
+						}
+						okNew := nv != nil && sameExpr(nv, wExpr) && appends(newArm) && !appends(seenArm)
+						// nothing else appends to the list in this block
+						extra := 0
+						for _, c := range allCalls(blk) {
+							if exprString(c.Fun) == "append" && len(c.Args) == 2 && sameExpr(c.Args[1], ix.Index) {
+								extra++
+							}
+						}
+						if okSeen && okNew && extra == 1 {
+							okPair = true
+						}
+					}
+				}
+			}
+			r.check(okPair, "C17.R3", "AllocateTokensToStakers|paid-what-it-added", as.pos(as.Decl), "a staker is listed once and its weight is everything it added to the total (so the fractions add up to at most one)", why+": a staker reached under several assets or AVSs is paid several fractions of a total that counts it differently (the payouts exceed the share and `remaining.Sub` panics in BeginBlock)")
 		}
 	}
 	{
